@@ -17,7 +17,7 @@ theorem runBuf_take {α : Type} (m : Rd α) : ∀ (buf : Bytes) (a : α) (rest :
     subst h1; subst h2
     exact Or.inr ⟨k, rfl⟩
   | fail e => intro buf a rest h; simp [runBuf] at h
-  | read n kk ih =>
+  | read n cr kk ih =>
     intro buf a rest h k
     unfold runBuf at h ⊢
     by_cases h0 : n ≤ 0
